@@ -4,7 +4,9 @@
 //! mutations move through the structured space instead of dying in input validation.
 
 use crate::fq::{BuildCase, Opts};
-use crate::props::{c07, c12, c13, c14, c17, c18};
+use crate::props::{c12, c13, c14, c18};
+#[cfg(fast_qr_verif)]
+use crate::props::{c07, c17};
 use crate::svgcase::{ColorSpec, SvgCfg};
 use refmodel::tables::*;
 
@@ -288,6 +290,7 @@ fn wild_f64(c: &mut Cur) -> f64 {
     }
 }
 
+#[cfg(fast_qr_verif)]
 pub fn wasm_case(data: &[u8]) -> c17::Case {
     let mut c = Cur::new(data);
     let nops = c.below(11);
@@ -326,6 +329,7 @@ pub fn wasm_case(data: &[u8]) -> c17::Case {
     c17::Case { content, ops }
 }
 
+#[cfg(fast_qr_verif)]
 pub fn division_case(data: &[u8]) -> c07::Case {
     let mut c = Cur::new(data);
     let version = 1 + c.below(40);
